@@ -151,6 +151,20 @@ func init() {
 		[]Stage{en("c05iter", 16, 100, prm("max_keys", 2))},
 		[]Stage{en("c05iter", 16, 1500, prm("max_keys", 3, "all_cuts", true))})
 
+	planTable["C06"] = func(q bool) *Plan {
+		p := &Plan{Level: "model_checking", Engine: "E-enum + E-sched",
+			Text:      "Static thresholds {1, 32, 1024} (on disk; 1024 also in memory): every combination of value size {0, 1, T-1, T, T+1, 2T}, user meta {0, 0xFF}, expiry {none, future}, discard-earlier flag and transaction shape {alone, two entries on the same side, two entries on opposite sides of the threshold}; every record is read through Get+Value, ValueCopy, a prefetching, a non-prefetching and a reverse iterator before flush, after flush, after a compaction to a deeper level and after re-opening with the same, a smaller and a larger threshold: bytes, user meta, expiry, version and discard flag equal what was written and the value-pointer bit agrees with the entry's own threshold. Dynamic threshold (VLogPercentile 0.5 and 0.75; 16 cases of value sizes): after a prefix that raises the threshold to about 900, three committers race - a tiny commit that keeps badger's writer goroutine busy so that the next two requests are written as one batch, a value of 200 or 40 bytes (below the current threshold) and 1 or 3 small values that pull the percentile below it - with the writer goroutine and the threshold listener as scheduled threads (points at the value-log write, the LSM write, the histogram update and the listener's store), so the threshold drops between the value-log write and the LSM write of an in-flight entry: under every interleaving up to the preemption bound every committed value, before and after a flush, reads back exactly through all read paths.",
+			Note:      "The dynamic part explores interleavings at the hooked points under sequential consistency; the static part is sequential.",
+			Technique: "bounded-exhaustive enumeration (static thresholds) + stateless model checking of the writer / threshold-listener interleavings (controlled scheduler, preemption-bounded DFS)",
+			Rule:      "static: (threshold, storage, shape, user meta, expiry, discard) tuples, 6 sizes each; dynamic: (percentile, size sequence) cases x schedules up to the bound; distinct = distinct (final threshold) outcomes per case"}
+		if q {
+			p.Stages = []Stage{en("c06static", 16, 60, nil), sched("c06dyn", 2, 16, 60, prm("cases", 16))}
+		} else {
+			p.Stages = []Stage{en("c06static", 16, 300, nil), sched("c06dyn", 3, 16, 900, prm("cases", 16))}
+		}
+		return p
+	}
+
 	planTable["C18"] = enumPlan("exploration",
 		"Every non-empty subset (255) of 8 internal keys over user keys {a,aa,aab,ab,b} (shared-prefix shapes that exercise the overlap/diff key reconstruction, two versions per key) x 4 value-size patterns around the block size (0, 10, blockSize-20, blockSize+20 bytes) with varying meta, user meta and expiry, built by the production Builder under block size {64,4096} x {none,snappy,zstd} x {plain,AES-128/192/256} x bloom {off,0.01} x 4 checksum modes x {file, in-memory} (quick: a rotating sixteenth of the 192-option grid per table, every option combination used by about 64 tables; thorough: the full grid plus a 65000-byte key and a 64 KiB value): forward and reverse iteration return exactly the input, Seek / SeekForPrev from every universe key and 36 gap probes land on the first entry >= / last entry <=, Rewind after exhaustion restarts, Smallest/Biggest/MaxVersion/KeyCount match, VerifyChecksum passes; ConcatIterator over every split of every subset into <= 3 contiguous tables (both directions, all seek targets); every byte of the data blocks flipped: a block-verifying table never returns an entry that was not stored.",
 		"Drives table.NewTableBuilder / CreateTable / OpenInMemoryTable / Table.NewIterator / NewConcatIterator directly.",
